@@ -104,8 +104,9 @@ impl SymbolsExportsModule {
         }
     }
     pub fn set_default_export(&mut self, export: Rc<SymbolExportDefault>) {
+        // a second default export is a TypeScript error; keep the first one instead of aborting
         if self.export_default.is_some() {
-            panic!("Default export already set");
+            return;
         }
         self.export_default = Some(export);
     }
